@@ -72,7 +72,7 @@ def match_known(known, sig):
 
 
 def write_replay(prop, r):
-    d = os.path.join(VERIF, "replay")
+    d = os.environ.get("VERIF_REPLAY_DIR") or os.path.join(VERIF, "replay")
     os.makedirs(d, exist_ok=True)
     blob = json.dumps({"property": prop, "name": r.get("name"), "why": r.get("why"), "sig": r.get("sig"),
                        "replay": r.get("replay")}, indent=1, sort_keys=True, default=str)
@@ -141,8 +141,9 @@ def finish(prop, tier, seed, level, results, t0, coverage, assumptions, extra_ex
     cov.setdefault("disagreements_checked", len(viol_new) + sum(len(v) for v in viol_known.values()) + len(unconfirmed))
     ev = {"property_id": prop, "tier": tier, "seed": seed, "level": level, "coverage": cov,
           "assumptions": assumptions, "wall_s": round(wall, 2), "violations": len(viol_new)}
-    os.makedirs(os.path.join(VERIF, "evidence"), exist_ok=True)
-    with open(os.path.join(VERIF, "evidence", prop + ".json"), "w") as f:
+    evdir = os.environ.get("VERIF_EVIDENCE_DIR") or os.path.join(VERIF, "evidence")
+    os.makedirs(evdir, exist_ok=True)
+    with open(os.path.join(evdir, prop + ".json"), "w") as f:
         json.dump(ev, f, indent=1, sort_keys=True, default=str)
     print("%s %s: %s in %.1fs  %s" % (prop, tier, json.dumps(counts, sort_keys=True), wall,
                                      " ".join("%s=%s" % (k, cov[k]) for k in ("obligations", "queries", "solver_s") if k in cov)))
